@@ -80,6 +80,11 @@ def tree_key():
     paths += _walk(os.path.join(REPO, 'cplusplus'), {'.h'})
     paths += _walk(os.path.join(REPO, 'java'), {'.java', '.c'})
     paths += [p for p in _walk(os.path.join(REPO, 'data')) if p.endswith('.dat') or '/kissel/' in p]
+    # the project's build description (the meson flavour builds the whole tree the project's way): every meson.build / options / template
+    for r, dirs, files in os.walk(REPO):
+        dirs[:] = sorted(x for x in dirs if x not in ('.git', '_build', '_b', 'data', 'build'))
+        paths += [os.path.join(r, f) for f in sorted(files) if f in ('meson.build', 'meson_options.txt', 'meson.options') or f.endswith(('.in', '.wrap', '.map', '.sym', '.def'))]
+    paths = sorted(set(paths))
     _hash_files(h, paths)
     _hash_files(h, [os.path.abspath(__file__), os.path.join(VERIF, 'xv', 'kissel_regen.py'),
                     os.path.join(VERIF, 'xv', 'sigtab.py'), os.path.join(VERIF, 'xv', 'cppgen.py')])
@@ -390,6 +395,15 @@ def harness_shared(config, name, extra_flags=()):
         _run(cmd)
     d = _target('hs-%s-%s-%s' % (name, config, hh), mk)
     return os.path.join(d, name)
+
+
+def loadmon():
+    """load monitor (C16): a program NOT linked against the library that dlopens it and records the process state around the load"""
+    hh = _harness_hash([os.path.join(HARNESS, 'loadmon.c')])
+
+    def mk(d):
+        _run(['gcc', '-O0', '-g', os.path.join(HARNESS, 'loadmon.c'), '-o', os.path.join(d, 'loadmon'), '-ldl', '-lm'])
+    return os.path.join(_target('loadmon-' + hh, mk), 'loadmon')
 
 
 def failmon(config):
